@@ -655,6 +655,7 @@ char *macros_expand_params(
     if (ch == '\n' || ch == EOF)
     {
       print_error(asm_context, "Macro expects ')'");
+      asm_context->error = 1;
       return nullptr;
     }
 
@@ -678,6 +679,7 @@ char *macros_expand_params(
   {
     printf("Error: Macro expects %d params, but got only %d at %s:%d.\n",
       param_count, count, asm_context->tokens.filename, asm_context->tokens.line);
+    asm_context->error = 1;
     return nullptr;
   }
 
